@@ -192,7 +192,7 @@ impl C20 {
             Err(OracleBad::OutOfRange) => {
                 self.cov.eval(format!("probe|{kind}|overflow|ok{}|{why}", o.ok() as u8));
                 if o.ok() {
-                    out.push(viol("C20", "conversion_overflow_not_reported", "pulse_bank_price_cache", format!("bank {bk}: the exactly adjusted value does not fit its integer type, yet a price was produced"), hook.event_index));
+                    out.push(viol("C20", "conversion_overflow_not_reported", "pulse_bank_price_cache", format!("bank {bk}: the exactly adjusted value does not fit its integer type, yet a price was produced (feed {:?}, liquidity/collateral {:?}, cached price now {:?})", base_price(store, &bank).map(|(p, e)| (q_str(&p), e)), rate_parts(store, &bank).map(|(l, c)| (q_str(&l), c)), post.as_ref().and_then(|s| model::bank_of(s, bk)).map(|b| q_str(&q_w(b.cache.last_oracle_price)))), hook.event_index));
                 } else {
                     self.cov.probe("adapter_probe_overflow_rejected");
                 }
